@@ -31,7 +31,18 @@ pub struct Src {
 #[serde(tag = "op")]
 pub enum Op {
     /// call on the long-lived rewriter r; reads chunked by `chunk` bytes, EINTR every `eintr` reads
-    Call { r: usize, f: usize, s: usize, chunk: usize, eintr: usize },
+    Call {
+        r: usize,
+        f: usize,
+        s: usize,
+        chunk: usize,
+        eintr: usize,
+        /// simulated latency per open / read in ms (slow file system): benign
+        #[serde(default)]
+        lat: u64,
+    },
+    /// simulated time passes between calls
+    Idle { ms: u64 },
     /// the same triple k more times in a row
     Repeat { r: usize, f: usize, s: usize, k: usize },
     /// brand-new rewriter from the same configuration and PRNG seed, one call, dropped
@@ -264,8 +275,9 @@ fn plan16(seed: u64, run: u64, tier: Tier) -> Plan16 {
             (Some((lr, lf, ls)), 3) => (lr, lf, ls),        // exact repeat
             _ => (r, f, s),
         };
-        let k = rng.weighted(&[12, 3, 3, 2, 2, 1, 2]);
+        let k = rng.weighted(&[12, 3, 3, 2, 2, 1, 2, 1]);
         let op = match k {
+            7 => Op::Idle { ms: *rng.pick(&[1, 1000, 61_000, 3_600_000, 86_400_000 * 8]) },
             6 => {
                 let mut fp = FaultPlan::default();
                 match rng.below(4) {
@@ -288,6 +300,7 @@ fn plan16(seed: u64, run: u64, tier: Tier) -> Plan16 {
                 s,
                 chunk: *rng.pick(&[0, 0, 1, 2, 7, 64, 4096]),
                 eintr: *rng.pick(&[0, 0, 0, 1, 2, 5]),
+                lat: *rng.pick(&[0, 0, 0, 0, 3, 900, 2500, 70_000]),
             },
             1 => Op::Repeat { r, f, s, k: rng.range(2, 8) },
             2 => Op::Fresh { r, f, s },
@@ -307,9 +320,11 @@ fn plan16(seed: u64, run: u64, tier: Tier) -> Plan16 {
     Plan16 { rewriters, files, sources, fs, ops, oneshot }
 }
 
-fn benign_plan(chunk: usize, eintr: usize) -> FaultPlan {
+fn benign_plan(chunk: usize, eintr: usize, lat: u64) -> FaultPlan {
     let mut p = FaultPlan::default();
     p.default_chunk = chunk;
+    p.open_latency_ms = lat;
+    p.read_latency_ms = lat;
     if eintr > 0 {
         // an EINTR before every `eintr`-th delivery, for the first 4096 read calls
         let mut reads = Vec::new();
@@ -612,15 +627,23 @@ impl Engine for C16 {
                     hist.push((5, *r, "-"));
                     stat(&mut rep, "op:renew", 1);
                 }
-                Op::Call { r, f, s, chunk, eintr } => {
+                Op::Idle { ms } => {
+                    instant::sim::advance(std::time::Duration::from_millis(*ms));
+                    stat(&mut rep, "sim-time-ms", *ms);
+                    stat(&mut rep, "fault:idle-time-passes", 1);
+                    log.push(format!("#{seq} Idle {ms} ms"));
+                    hist.push((7, 0, "-"));
+                }
+                Op::Call { r, f, s, chunk, eintr, lat } => {
                     if let Some(c) = &configs[*r] {
-                        let res = exec::call(c, &plan.sources[*s].text, &plan.files[*f], &plan.fs, &benign_plan(*chunk, *eintr));
+                        let res = exec::call(c, &plan.sources[*s].text, &plan.files[*f], &plan.fs, &benign_plan(*chunk, *eintr, *lat));
+                        stat(&mut rep, "sim-time-ms", res.stats.sim_ms);
                         for (k, n) in &res.stats.faults_fired {
                             stat(&mut rep, &format!("fault:{k}"), *n as u64);
                         }
                         check("later-call", *r, *f, *s, &res.outcome, &mut model, &mut viol, seq);
                         let cls = res.outcome.class();
-                        log.push(format!("#{seq} Call r={r} f={f} s={s} chunk={chunk} eintr={eintr} -> {cls} {:016x} reads={}", res.outcome.digest(), res.stats.read_calls));
+                        log.push(format!("#{seq} Call r={r} f={f} s={s} chunk={chunk} eintr={eintr} lat={lat} -> {cls} {:016x} reads={}", res.outcome.digest(), res.stats.read_calls));
                         // probes / cells
                         if let Some((pr, pf, ps, pc)) = prev {
                             if pc == "syntax-error" { stat(&mut rep, "probe:call-after-syntax-error", 1); }
@@ -792,10 +815,10 @@ impl Engine for C16 {
                     out.push(serde_json::to_value(q).unwrap());
                 }
             }
-            if let Op::Call { r, f, s, chunk, eintr } = op {
-                if *chunk != 0 || *eintr != 0 {
+            if let Op::Call { r, f, s, chunk, eintr, lat } = op {
+                if *chunk != 0 || *eintr != 0 || *lat != 0 {
                     let mut q = p.clone();
-                    q.ops[i] = Op::Call { r: *r, f: *f, s: *s, chunk: 0, eintr: 0 };
+                    q.ops[i] = Op::Call { r: *r, f: *f, s: *s, chunk: 0, eintr: 0, lat: 0 };
                     out.push(serde_json::to_value(q).unwrap());
                 }
             }
@@ -834,7 +857,7 @@ impl Engine for C16 {
     }
 
     fn rule(&self) -> String {
-        "a case is one seeded call history (10-60 operations: Call/Repeat/Fresh/Hop/FaultCall/SetLog/Renew over <=4 rewriters, <=6 files, <=8 generated sources, benign reader faults); distinct = hash of the abstract history (operation kind, rewriter index, outcome class per step); non-trivial = at least two operations; cells = outcome-class transitions x same/other rewriter x same/other file".into()
+        "a case is one seeded call history (10-60 operations: Call (benign faults incl. simulated latency)/Repeat/Fresh/Hop/FaultCall/SetLog/Renew/Idle (simulated time passes) over <=4 rewriters, <=6 files, <=8 generated sources, benign reader faults); distinct = hash of the abstract history (operation kind, rewriter index, outcome class per step); non-trivial = at least two operations; cells = outcome-class transitions x same/other rewriter x same/other file".into()
     }
 
     fn components(&self) -> Value {
